@@ -459,7 +459,7 @@ impl Prop for C02 {
         st.run_ops(&case.ops);
         st.finish();
         if st.flood {
-            return RunOut::skip("replay-fast-forward-output-flood");
+            return RunOut::skip(if st.too_slow { "run-longer-than-6s-wall-clock" } else { "replay-fast-forward-output-flood" });
         }
         let mut o = RunOut::pass();
         if st.batch > 1 {
